@@ -366,6 +366,7 @@ class Gen:
             ("return", 1),
             ("global", 1),
             ("del_nothing", 0),
+            ("match", 1),
         ]
         if ctx["is_gen"]:
             choices.append(("yield", 4))
@@ -375,7 +376,7 @@ class Gen:
             choices.append(("declare", 3))
             choices.append(("undef_global", 2))
         if depth >= self.o["max_depth"]:
-            choices = [c for c in choices if c[0] not in ("if", "for", "while", "try", "with")]
+            choices = [c for c in choices if c[0] not in ("if", "for", "while", "try", "with", "match")]
         choices = [c for c in choices if self.ok(c[0])]
         kind = rnd.choices([c[0] for c in choices], [c[1] for c in choices])[0]
         getattr(self, "s_" + kind)(em, ctx, depth)
@@ -535,6 +536,74 @@ class Gen:
             ctx["bound"] = saved | (b1 & b2)
         else:
             ctx["bound"] = saved
+
+    def s_match(self, em, ctx, depth):
+        """match statement: the names captured by the pattern of the case that is taken are
+        bound when its body starts (in source order)."""
+        rnd = self.rnd
+        fn = ctx["fn"]
+        self.feat("match")
+        n = rnd.randint(1, 3)
+        subj = [self.expr(ctx, 1) for _ in range(n)]
+        em.both("match [" + ", ".join(p for p, _ in subj) + "]:", "match [" + ", ".join(t for _, t in subj) + "]:")
+        saved = set(ctx["bound"])
+        em.ip += 1
+        em.it += 1
+        shapes = ["wrong_len", "exact", "guard", "star", "as", "or", "mapping_miss"]
+        nonint_all = set()
+        rnd.shuffle(shapes)
+        for shape in shapes[: rnd.randint(1, 3)]:
+            ctx["bound"] = set(saved)
+            names = rnd.sample(LOCALS, min(len(LOCALS), n + 1))
+            ints, others = [], []
+            if shape == "wrong_len":
+                pat = "[" + ", ".join(names[: n + 1]) + "]"
+            elif shape == "exact":
+                pat = "[" + ", ".join(names[:n]) + "]"
+                ints = names[:n]
+            elif shape == "guard":
+                pat = "[" + ", ".join(names[:n]) + f"] if {names[0]} % 2 == {rnd.randint(0, 1)}"
+                ints = names[:n]
+            elif shape == "star":
+                pat = f"[{names[0]}, *{names[1]}]" if n > 1 else f"[*{names[1]}]"
+                ints = [names[0]] if n > 1 else []
+                others = [names[1]]
+            elif shape == "as":
+                pat = "[" + ", ".join(names[:n]) + f"] as {names[n]}"
+                ints = names[:n]
+                others = [names[n]]
+            elif shape == "or":
+                pat = "[" + ", ".join(names[:n]) + "] | [" + ", ".join(names[:n]) + ", _]"
+                ints = names[:n]
+            else:
+                pat = "{'k': " + names[0] + ", **" + names[1] + "}"
+            em.both(f"case {pat}:")
+            em.ip += 1
+            em.it += 1
+            if shape not in ("wrong_len", "mapping_miss"):
+                order = (ints + others) if shape != "star" or n > 1 else others
+                for nm in order:
+                    if nm in others:
+                        self.feat("match_capture_nonint")
+                        nonint_all.add(nm)
+                        ctx["bound"].discard(nm)
+                    self.bind_hook(em, fn, nm)
+                ctx["bound"] |= set(ints)
+            self.block(em, ctx, depth + 1, n=rnd.randint(1, 2))
+            em.ip -= 1
+            em.it -= 1
+        if rnd.random() < 0.5:
+            ctx["bound"] = set(saved)
+            em.both("case _:")
+            em.ip += 1
+            em.it += 1
+            self.block(em, ctx, depth + 1, n=1)
+            em.ip -= 1
+            em.it -= 1
+        em.ip -= 1
+        em.it -= 1
+        # which names are bound afterwards depends on the case taken (and a failed guard still binds)
+        ctx["bound"] = set(saved) - nonint_all
 
     def loop_exit(self, em, ctx, depth):
         """Maybe emit break / continue / return / raise inside a loop body."""
